@@ -91,6 +91,11 @@ func newRec() *rec { return &rec{fields: map[string]string{}, vals: map[string][
 type prog struct {
 	vars   []*tensor.Dense
 	vdt    []*dtInfo
+	// slices passed to the library so far (caller-owned), their contents at that time, and the step
+	held     [][]int
+	heldCopy [][]int
+	heldStep []int
+	curStep  int
 	inputs [][]interface{} // initial contents of model buffer b (in creation order of `new`)
 	nbuf   int
 	vset   int
@@ -305,7 +310,43 @@ func (p *prog) newOp(dt *dtInfo, f func() (*tensor.Dense, error)) *rec {
 // extSteps: step keywords handled by operation-family files (registered in their init()).
 var extSteps = map[string]func(p *prog, idx int, toks []string) *rec{}
 
+// hold registers a slice the harness (the "caller") passes to the library: the library must never
+// mutate, retain or recycle it (C19). Every held slice is re-checked after every later step.
+func (p *prog) hold(s []int) []int {
+	p.held = append(p.held, s)
+	p.heldCopy = append(p.heldCopy, append([]int(nil), s...))
+	p.heldStep = append(p.heldStep, p.curStep)
+	return s
+}
+
+func (p *prog) checkHeld() string {
+	var bad []string
+	for i, s := range p.held {
+		c := p.heldCopy[i]
+		same := len(s) == len(c)
+		for j := 0; same && j < len(s); j++ {
+			if s[j] != c[j] {
+				same = false
+			}
+		}
+		if !same {
+			bad = append(bad, fmt.Sprintf("step%d:%v->%v", p.heldStep[i], c, s))
+			p.heldCopy[i] = append([]int(nil), s...) // report once
+		}
+	}
+	return strings.Join(bad, "|")
+}
+
 func (p *prog) step(idx int, toks []string) *rec {
+	p.curStep = idx
+	r := p.stepInner(idx, toks)
+	if m := p.checkHeld(); m != "" {
+		r.fields["argmut"] = strings.ReplaceAll(m, " ", ",")
+	}
+	return r
+}
+
+func (p *prog) stepInner(idx int, toks []string) *rec {
 	if len(toks) == 0 {
 		return simple("badprog")
 	}
@@ -368,6 +409,7 @@ func (p *prog) step(idx int, toks []string) *rec {
 		if t == nil || err != nil {
 			return simple("skip")
 		}
+		p.hold(axes)
 		return simple(guard(func() error { return t.T(axes...) }))
 	case "UT":
 		t, _ := p.get(toks[1])
@@ -388,6 +430,7 @@ func (p *prog) step(idx int, toks []string) *rec {
 			return simple("skip")
 		}
 		var v interface{}
+		p.hold(c)
 		res := guard(func() error { x, err := t.At(c...); v = x; return err })
 		r := simple(res)
 		if res == "ok" {
@@ -402,6 +445,7 @@ func (p *prog) step(idx int, toks []string) *rec {
 			return simple("skip")
 		}
 		v, _ := dt.litVal("w" + strconv.Itoa(idx))
+		p.hold(c)
 		return simple(guard(func() error { return t.SetAt(v, c...) }))
 	case "clone":
 		t, dt := p.get(toks[1])
@@ -431,6 +475,7 @@ func (p *prog) step(idx int, toks []string) *rec {
 			p.push(nil, dt)
 			return simple("skip")
 		}
+		p.hold(axes)
 		return p.newOp(dt, func() (*tensor.Dense, error) { return t.SafeT(axes...) })
 	case "roll":
 		t, dt := p.get(toks[1])
@@ -474,6 +519,7 @@ func (p *prog) step(idx int, toks []string) *rec {
 		if t == nil || err != nil {
 			return simple("skip")
 		}
+		p.hold(dims)
 		return simple(guard(func() error { return t.Reshape(dims...) }))
 	case "calcS":
 		t, _ := p.get(toks[1])
